@@ -39,7 +39,7 @@ TOL = {
 
 def cases(tier, seed):
     out = []
-    n_rand = 40 if tier == "quick" else 1500
+    n_rand = 300 if tier == "quick" else 12000
     # boundary catalogue of points
     tiny = [0.0, -0.0, 1e-17, -1e-17, 1e-300, -1e-300, 1.0, -1.0]
     cat = []
